@@ -165,6 +165,22 @@ def pairs(tier):
         add(f"composed parameterized value-ref argument [{pn}]", tv, f"Mm ::= {pn} {{upper}}", f"Mm ::= INTEGER (0..{P1})", nonneg)
         tt = f"{up} {pn} {{T}} ::= SEQUENCE {{ a T }}"
         add(f"composed parameterized constrained-type argument [{pn}]", tt, f"Mm ::= {pn} {{INTEGER (0..upper)}}", f"Mm ::= SEQUENCE {{ a INTEGER (0..{P1}) }}", nonneg)
+    # ---- two notations inside ONE definition (each expansion step must leave what the other one still needs)
+    for tag_, (cl, bn, cn, pn) in (('a', ('CLS', 'B', 'C', 'P')), ('z', ('ZCLS', 'Zb', 'Zc', 'Zp'))):
+        defs = (f"{cl} ::= CLASS {{ &id INTEGER (0..{P1}) UNIQUE, &Type }} {bn} ::= SEQUENCE {{ x INTEGER (0..255), y BOOLEAN }} "
+                f"{cn} ::= CHOICE {{ a INTEGER (0..7), b BOOLEAN }} {pn} {{INTEGER: v}} ::= INTEGER (1..v)")
+        parts = {'class-field': (f"i {cl}.&id", f"i INTEGER (0..{P1})"), 'components-of': (f"COMPONENTS OF {bn}", "x INTEGER (0..255), y BOOLEAN"),
+                 'selection': (f"s a < {cn}", "s INTEGER (0..7)"), 'parameterized': (f"r {pn} {{{P1}}}", f"r INTEGER (1..{P1})")}
+        names = list(parts)
+        for i1 in range(len(names)):
+            for i2 in range(len(names)):
+                if i1 == i2:
+                    continue
+                n1, n2 = names[i1], names[i2]
+                if 'components-of' in (n1, n2) and n2 != 'components-of':
+                    continue        # COMPONENTS OF not in last position: a known finding of its own (position lost)
+                (s1, e1), (s2, e2) = parts[n1], parts[n2]
+                add(f"two notations {n1} + {n2} [{tag_}]", defs, f"Mm ::= SEQUENCE {{ {s1}, {s2} }}", f"Mm ::= SEQUENCE {{ {e1}, {e2} }}", lambda v: [v[0] >= 1])
     return out
 
 
